@@ -1,6 +1,7 @@
 package main
 
 import (
+	"bytes"
 	"encoding/binary"
 	"encoding/json"
 	"fmt"
@@ -482,6 +483,18 @@ func connectBytes(a bAct) []byte {
 	default:
 		flags |= 0x80
 		tail = append(tail, lp([]byte("good"))...)
+	}
+	// forms "...rlN": a password is added whose length makes the remaining length of the CONNECT exactly N
+	if i := strings.Index(a.Form, "rl"); i >= 0 {
+		n, _ := strconv.Atoi(a.Form[i+2:])
+		flags |= 0xc0
+		if flags&0x80 == 0 || !bytes.Contains(tail, []byte("good")) {
+			tail = append(tail, lp([]byte("good"))...)
+		}
+		have := 10 + len(tail) + 2
+		if n > have {
+			tail = append(tail, lp(bytes.Repeat([]byte{'p'}, n-have))...)
+		}
 	}
 	body := append(lp([]byte("MQTT")), 4, flags, byte(ka>>8), byte(ka))
 	return pkt(0x10, append(body, tail...))
